@@ -22,6 +22,7 @@ PROBE_WHAT = {
  "nested-retype-of-outer-variable": "assigning a value of another type to an outer `mut` variable from a nested block is accepted by the checker (type compared only for same-block re-assignment; pinned by the `inferred_reassign` snapshot, whose `num = num / 2` relies on it) and rejected by rustc (E0308)",
  "append-while-iterating": "appending to a list inside a `for` over the same list is accepted; rustc rejects the mutable borrow (E0502)",
  "derive-partialord-alone": "`@derive(PartialOrd)` without PartialEq is accepted; rustc needs PartialEq",
+ "mutating-builtin-on-immutable-collection": "`xs = [1]; xs.append(2)` on an immutable list is accepted (the `function_calls` snapshot source relies on it); rustc E0596",
  "type-name-as-value-argument": "a type name bound to a variable (`f = Pos`) is typed as an instance and accepted as an argument",
 }
 
@@ -44,6 +45,8 @@ def run(args):
         core = [c for c in cases if c[0].startswith("c02 core ")]
         probes = [c for c in cases if c[0].startswith("c02 probe ")]
         projects = [c for c in cases if c[0].startswith("c02 project ")]
+        negative = [c for c in cases if c[0].startswith("c02 negative ")]
+        derive = [c for c in cases if c[0].startswith("c02 derive ")]
         model = ctx.run_driver([c[0] for c in core])
         ctx.tie("model chkB (checker as implemented) and rustB (lowering + rustc) = real checker verdict and real build outcome, on well-typed, borderline and ill-typed variants of generated function bodies",
                 [(r, " ".join(o.split(" ")[:2]).strip()) for r, o in core], model)
@@ -76,6 +79,19 @@ def run(args):
                 failures.append({"request": req, "real": real, "why": "checker accepts, build fails"})
             else:
                 failures.append({"request": req, "real": real, "why": "no checker verdict"})
+        hist.update({"negative_rejected": 0, "derive_subsets_built": 0})
+        for req, real in negative + derive:
+            ctx.nontrivial.add(req)
+            kind = req.split(" ")[1]
+            if real == "reject":
+                hist["negative_rejected"] += kind == "negative"
+            elif real.startswith("accept built"):
+                if kind == "derive":
+                    hist["derive_subsets_built"] += 1
+            elif real.startswith("accept"):
+                failures.append({"request": req, "real": real, "why": "the checker accepts this program but the generated project does not build"})
+            else:
+                failures.append({"request": req, "real": real, "why": "no checker verdict"})
         for req, real in projects:
             ctx.nontrivial.add(req)
             exp = req.split(" ")[3]
@@ -89,5 +105,5 @@ def run(args):
         ctx.coverage_extra = {"histogram": hist, "harness_meta": metas, "oracle_failures": len(failures)}
     ctx.conclude_broken_obligations(failures)
     return ctx.finish(
-        rule="generated function bodies of the core fragment (as in C01) in 9 variants: well-typed, immutable accumulator, re-typing an outer variable from a nested block, same-block re-typing, undefined name, `mut` shadow inside a block, compound / plain assignment to an immutable whose name is bound mutably in an earlier function, wrong return type — checker verdict in-process, then every program built by rustc in one batch; 21 probes, one per recorded construct that type-checks but does not build; multi-file projects with nested module directories built by the real `incan build`; distinct = distinct request",
+        rule="generated function bodies of the core fragment (as in C01) in 9 variants: well-typed, immutable accumulator, re-typing an outer variable from a nested block, same-block re-typing, undefined name, `mut` shadow inside a block, compound / plain assignment to an immutable whose name is bound mutably in an earlier function, wrong return type — checker verdict in-process, then every program built by rustc in one batch; 19 ill-typed programs the checker must not let through to rustc; derive subsets (10 derives, rotated order, model and class) built; 21 probes, one per recorded construct that type-checks but does not build; multi-file projects with nested module directories built by the real `incan build`; distinct = distinct request",
         extra_cov=getattr(ctx, "coverage_extra", None))
